@@ -73,7 +73,13 @@ pub fn check_bytes(ctx: &mut Ctx, type_name: &str, rule: &str, bytes: &[u8], opt
                     continue;
                 }
                 seen.push(f.clause);
-                let suffix = if origin.ends_with("wide-index") && f.clause.ends_with("index-uint16") { "/api-accepts-u32-index" } else { "" };
+                let suffix = if origin.ends_with("wide-index") && f.clause.ends_with("index-uint16") {
+                    "/api-accepts-u32-index"
+                } else if origin.ends_with("wide-index") && f.clause.ends_with("redeemer-index-uint32") {
+                    "/api-accepts-u64-index"
+                } else {
+                    ""
+                };
                 ctx.violation(
                     &format!("cddl/{}{}", f.clause, suffix),
                     json!({"type": type_name, "bytes": hx(bytes), "path": f.path, "note": f.note, "rule": rule, "origin": origin, "legacy_ok": opts.legacy_ok}),
